@@ -412,7 +412,7 @@ def ingest_percentage_float_sweep(tier, deadline):
 
     t0 = _time.time()
     out = {"name": "ingest_percentage_float_sweep", "kind": "auxiliary enumeration of concrete runs with native IEEE floats", "evaluations": 0, "distinct_nontrivial": 0,
-           "exhaustive": True, "violations": [], "errors": [], "bounds": {"bulks": "1..%d" % (600 if tier == "quick" else 3000), "p": "1..100 in steps of 0.5 (exactly representable), plus 99.9 and 0.1"}}
+           "exhaustive": True, "violations": [], "errors": [], "bounds": {"bulks": "1..%d" % (600 if tier == "quick" else 3000), "p": "1..100 in steps of 0.5 (exactly representable), plus 99.9, 0.1 and 33.3 read as decimals"}}
     ps = [k / 2 for k in range(1, 201)] + [99.9, 0.1, 33.3]
     top = 600 if tier == "quick" else 3000
     for n in range(1, top + 1):
@@ -422,7 +422,8 @@ def ingest_percentage_float_sweep(tier, deadline):
                                                        original_params={"__create_reader": lambda *a: None})
             src.partition(0, 1)
             src._init_internal_params()
-            want = math.ceil(fractions.Fraction(n) * fractions.Fraction(p) / 100)
+            # the percentage is the DECIMAL number the user wrote (99.9 means 999/1000, not the nearest binary double)
+            want = math.ceil(fractions.Fraction(n) * fractions.Fraction(str(p)) / 100)
             out["evaluations"] += 1
             if src.total_bulks != want and not out["violations"]:
                 out["violations"].append({"inputs": {"bulks": n, "ingest_percentage": p}, "slice": {},
@@ -444,7 +445,7 @@ def _replay_sweep(entry):
     src = params.PartitionBulkIndexParamSource(corp, 1, 1, p, params.IndexIdConflict.NoConflicts, None, None, None, original_params={"__create_reader": lambda *a: None})
     src.partition(0, 1)
     src._init_internal_params()
-    want = math.ceil(fractions.Fraction(n) * fractions.Fraction(p) / 100)
+    want = math.ceil(fractions.Fraction(n) * fractions.Fraction(str(p)) / 100)
     return src.total_bulks == want, "bulks=%d p=%s: total_bulks=%d, exact ceil=%d" % (n, p, src.total_bulks, want)
 
 
